@@ -191,10 +191,12 @@ theorem encode_utf8 (g : Nat → UInt64 → Bytes) (m : Mode) (hg : H1 g) (v : E
 
 /-! ## XDL -/
 
-/-- `Xdl::decode(Xdl::encode(v, mode))`, compact or PRETTY, for trees whose keys are identifiers and whose
-    `$type` is a class name: the result is `xnorm v` — same structure, same keys, strings, booleans
-    (written `Y`/`N`), numbers as the decoder classifies their lexemes, the class name back as `$type`,
-    undefined members dropped (nesting ≤ 1000).  PRETTY separates members and long arrays by newlines only,
+/-- `Xdl::decode(Xdl::encode(v, mode))`, compact or PRETTY, for trees whose keys are identifiers (`WFX`: a
+    letter, digit, `_` or `$`, then letters, digits, `_` — `$type` is one of them and may hold ANY value): the
+    result is `xnorm v` — same structure, same keys, strings, booleans (written `Y`/`N`), numbers as the
+    decoder classifies their lexemes, undefined members dropped (nesting ≤ 1000).  A `$type` that is a class
+    name (`validCls`, exactly the encoder's `isClassName` by `xdl_class_name_test`) is written in class
+    notation and comes back as the member `$type`; any other `$type` is written as an ordinary property.  PRETTY separates members and long arrays by newlines only,
     which the parser reads in its WAIT_COMMA_OR_* states. -/
 theorem xdl_roundtrip (g : Nat → UInt64 → Bytes) (m : Mode) (hj : m.json = false)
     (hg : H1 g) (v : EV) (hw : AslProofs.XdlX.WFX v) (hd : AslProofs.XdlX.xdepth v ≤ 1000) :
@@ -214,21 +216,32 @@ theorem xdl_file_roundtrip (g : Nat → UInt64 → Bytes) (m : Mode) (hj : m.jso
     (hw : AslProofs.XdlX.WFX v) : readFile (writeChunks g m v).flatten = decode (encode g m v) :=
   AslProofs.XdlX.xdl_file_roundtrip g m hj hg v hw
 
-/-- non-vacuity of the XDL hypotheses: `Point{on=Y,x=1}` -/
+/-- the encoder uses class notation exactly for the `$type` strings the decoder reads back as a class name:
+    first character a letter, `_` or `$`, then letters, digits, `_`, `.`, and not `Y`, `N`, `true`, `false`, `null` -/
+theorem xdl_class_name_test (v : EV) (c : Bytes) :
+    clsName v = some c ↔ v = .str c ∧ AslProofs.XdlX.validCls c :=
+  AslProofs.XdlX.clsName_iff v c
+
+/-- non-vacuity of the XDL hypotheses: `Point{on=Y,x=1}`, and objects whose `$type` is not a class name -/
 example : AslProofs.XdlX.WFX (.obj [(classKey, .str [80, 111, 105, 110, 116]), ([111, 110], .bool true), ([120], .int 1)]) := by
   have idc : ∀ c : UInt8, isAlnum c = true → AslProofs.XdlX.isIdChar c := fun c h => Or.inl h
-  have h1 : AslProofs.XdlX.validCls [80, 111, 105, 110, 116] := by
-    refine ⟨80, [111, 105, 110, 116], rfl, Or.inl ⟨by decide, by decide⟩, ?_, ?_⟩
-    · intro c hc
-      simp at hc
-      rcases hc with rfl | rfl | rfl | rfl <;> exact idc _ (by decide)
-    · unfold AslProofs.XdlX.reserved; decide
   have h2 : AslProofs.XdlX.validKey [111, 110] :=
-    ⟨111, [110], rfl, Or.inl (by decide), by intro c hc; simp at hc; subst hc; exact idc _ (by decide), by decide⟩
+    ⟨111, [110], rfl, Or.inl (by decide), by intro c hc; simp at hc; subst hc; exact idc _ (by decide)⟩
   have h3 : AslProofs.XdlX.validKey [120] :=
-    ⟨120, [], rfl, Or.inl (by decide), by intro c hc; simp at hc, by decide⟩
+    ⟨120, [], rfl, Or.inl (by decide), by intro c hc; simp at hc⟩
   show AslProofs.XdlX.WFXM _
-  exact ⟨Or.inl ⟨rfl, _, rfl, h1⟩, Or.inr ⟨h2, trivial⟩, Or.inr ⟨h3, by decide, by decide⟩, trivial⟩
+  exact ⟨⟨AslProofs.XdlX.classKey_valid, by decide⟩, ⟨h2, trivial⟩, ⟨h3, by decide, by decide⟩, trivial⟩
+example : AslProofs.XdlX.WFX (.obj [(classKey, .int 5), ([120], .int 1)]) ∧
+    AslProofs.XdlX.WFX (.obj [(classKey, .str [104, 105, 32, 121, 111, 117])]) := by
+  have h3 : AslProofs.XdlX.validKey [120] :=
+    ⟨120, [], rfl, Or.inl (by decide), by intro c hc; simp at hc⟩
+  exact ⟨⟨⟨AslProofs.XdlX.classKey_valid, by decide, by decide⟩, ⟨h3, by decide, by decide⟩, trivial⟩,
+    ⟨⟨AslProofs.XdlX.classKey_valid, by decide⟩, trivial⟩⟩
+/-- `{"$type":5,"x":1}` ↦ `{$type=5,x=1}` and `{"$type":"hi you"}` ↦ `{$type="hi you"}` (before c4482e8: `?{x=1}`, `hi you{}`) -/
+example : encode AslModel.Dtoa.fmtG ⟨false, false, false, false⟩ (.obj [(classKey, .int 5), ([120], .int 1)]) =
+    [123, 36, 116, 121, 112, 101, 61, 53, 44, 120, 61, 49, 125] := by decide
+example : encode AslModel.Dtoa.fmtG ⟨false, false, false, false⟩ (.obj [(classKey, .str [104, 105, 32, 121, 111, 117])]) =
+    [123, 36, 116, 121, 112, 101, 61, 34, 104, 105, 32, 121, 111, 117, 34, 125] := by decide
 
 /-! ## non-vacuity -/
 
